@@ -348,7 +348,12 @@ func (t *Thread) call(c Callable, args []Value, next Cont) error {
 	}
 	cont := c.Continuation(t, next)
 	t.Push(cont, args...)
-	return t.RunContinuation(cont)
+	// The continuation which makes this call is still the current one when the
+	// call returns.
+	prev := t.currentCont
+	err := t.RunContinuation(cont)
+	t.currentCont = prev
+	return err
 }
 
 func (t *Thread) getResumeValues() ([]Value, error) {
